@@ -1,6 +1,7 @@
 package verifh
 
 import (
+	"bytes"
 	"strings"
 	"testing"
 	"testing/synctest"
@@ -135,10 +136,109 @@ func c16Run(t *testing.T, root string, T time.Duration, seq []int) (closedAtStep
 	return
 }
 
+// ---- slow-drain family: an active client that takes its time to receive a large response ----
+
+var c16DrainEvents = []string{"adv0.3", "adv0.55", "req", "drain4k", "drainall"}
+
+// c16DrainRun: the client opens /big.bin, then follows the event sequence. A sequence is judged only while its premise
+// holds (consecutive requests are issued less than T apart); returns executed = number of events judged.
+func c16DrainRun(t *testing.T, root string, T time.Duration, seq []int, want []byte) (executed int, why string, trace []string) {
+	synctest.Test(t, func(t *testing.T) {
+		leaf := newVFs(afero.NewOsFs(), "leaf")
+		leaf.record = false
+		s := startSrv(SrvOpts{Root: root, Timeout: T, LeafWrap: func(afero.Fs) afero.Fs { return leaf }})
+		start := time.Now()
+		c := s.Dial(nil)
+		c.outCap = 4096
+		synctest.Wait()
+		fail := func(sg, f string, a ...any) {
+			if why == "" {
+				why = sg + "|" + sprintf(f, a...)
+			}
+		}
+		c.Send(mkReq(opOpenFile, "/big.bin").Encode())
+		synctest.Wait()
+		if x := c.Take(); len(x) != szOpenFile || int64(be64(x)) != int64(len(want)) {
+			fail("open", "open of /big.bin answered %s", hexHead(x))
+		}
+		lastReq := time.Now()
+		outstanding := 0 // response bytes of the current request not yet received
+		var got []byte
+	events:
+		for step, ei := range seq {
+			if why != "" {
+				break
+			}
+			ev := c16DrainEvents[ei]
+			switch ev {
+			case "adv0.3", "adv0.55":
+				f := 0.3
+				if ev == "adv0.55" {
+					f = 0.55
+				}
+				d := time.Duration(float64(T) * f)
+				if time.Since(lastReq)+d >= T {
+					break events // premise: the client issues requests more often than T - this sequence leaves it
+				}
+				time.Sleep(d)
+				synctest.Wait()
+			case "req":
+				if outstanding > 0 {
+					break events // requests are issued one at a time
+				}
+				c.Send(rdcReq(0, uint32(len(want))).Encode())
+				lastReq = time.Now()
+				outstanding = len(want)
+				got = got[:0]
+				synctest.Wait()
+			case "drain4k", "drainall":
+				if outstanding == 0 {
+					break events
+				}
+				for {
+					var x []byte
+					if ev == "drain4k" {
+						x = c.TakeN(4096)
+					} else {
+						x = c.Take()
+					}
+					synctest.Wait()
+					got = append(got, x...)
+					outstanding -= len(x)
+					if ev == "drain4k" || len(x) == 0 || outstanding <= 0 {
+						break
+					}
+				}
+				if outstanding < 0 || !bytes.Equal(got, want[:len(got)]) {
+					fail("wrong-bytes", "step %d: received bytes are not a prefix of the requested range (%d bytes received)", step, len(got))
+				}
+			}
+			trace = append(trace, sprintf("t=%v %s (outstanding %d)", time.Since(start), ev, outstanding))
+			executed = step + 1
+			if c.ServerClosed() {
+				fail("active-client-cut", "step %d (%s): the connection was closed at %v although the client issued its last request at %v (T=%v) and is receiving the response (%d bytes outstanding)", step, ev, c.ClosedAt().Sub(start), lastReq.Sub(start), T, outstanding)
+			}
+		}
+		c.Fin()
+		for {
+			x := c.Take()
+			synctest.Wait()
+			if len(x) == 0 {
+				break
+			}
+		}
+		s.Shutdown()
+		if l := leaf.Outstanding(); len(l) > 0 {
+			fail("handle-leak", "after shutdown %d handle(s) stay open: %v", len(l), l)
+		}
+	})
+	return
+}
+
 func TestC16(t *testing.T) {
 	r := NewReporter(t)
 	defer r.Done()
-	r.Rule("T in {100 ms, 1 s, 10 min} x all event sequences of length <= depth over {advance 0.2T,0.5T,0.8T,1.0T,1.2T; deliver 1 byte; deliver rest of the 16-byte command; deliver half of the rest; deliver rest of request} over a cyclic script {Stat, OpenFile, WriteFile+payload, OpenDir}; sequences are cut at the first close; oracle: close at exactly (instant the server started waiting for the current request)+T iff the request is incomplete then, never earlier or later; completed requests answered; handle ledger empty after the cut; distinct by (T, executed event prefix)")
+	r.Rule("T in {100 ms, 1 s, 10 min} x all event sequences of length <= depth over {advance 0.2T,0.5T,0.8T,1.0T,1.2T; deliver 1 byte; deliver rest of the 16-byte command; deliver half of the rest; deliver rest of request} over a cyclic script {Stat, OpenFile, WriteFile+payload, OpenDir}; sequences are cut at the first close; oracle: close at exactly (instant the server started waiting for the current request)+T iff the request is incomplete then, never earlier or later; completed requests answered; handle ledger empty after the cut; slow-drain family: all sequences over {advance 0.3T/0.55T, issue 40000-byte critical read, take 4096 bytes, take all} through a 4096-byte send buffer with write deadlines modelled, never cut while requests are < T apart; distinct by (T, executed event prefix)")
 	w := newWorld(t, "srv/root")
 	defer w.Cleanup()
 	w.File("a.txt", 10, 1)
@@ -243,6 +343,65 @@ func TestC16(t *testing.T) {
 				r.Violation("C16:"+sg, sprintf("T=%v long run with spacing %.1fT: %s", T, c16Events[frac].Frac, msg), map[string]any{"T": T.String(), "trace_tail": trace[max(0, len(trace)-6):]})
 			} else {
 				r.Outcome(sprintf("long-run-spacing-%.1fT-ok", c16Events[frac].Frac))
+			}
+		}
+	}
+	// slow drain: all event sequences over {advance 0.3T, 0.55T; issue a 40000-byte critical read; take 4096 bytes;
+	// take everything} through a 4096-byte send buffer, judged while consecutive requests are less than T apart
+	w.File("big.bin", 40000, 3)
+	bigWant := patBytes(3, 0, 40000)
+	ddepth := 6
+	if r.Thorough() {
+		ddepth = 8
+	}
+	nd := len(c16DrainEvents)
+	for ti, T := range []time.Duration{100 * time.Millisecond, 10 * time.Minute} {
+		total := 1
+		for i := 0; i < ddepth; i++ {
+			total *= nd
+		}
+		for idx := 0; idx < total; {
+			seq := make([]int, ddepth)
+			x := idx
+			for k := ddepth - 1; k >= 0; k-- {
+				seq[k] = x % nd
+				x /= nd
+			}
+			// shard by the first two events
+			if !r.Mine(2000 + ti*nd*nd + seq[0]*nd + seq[1]) {
+				blk := total / (nd * nd)
+				idx = (idx/blk + 1) * blk
+				continue
+			}
+			if r.TimeUp() {
+				return
+			}
+			executed, why, trace := c16DrainRun(t, w.Root, T, seq, bigWant)
+			r.Transition(int64(executed) + 1)
+			r.Eval(1)
+			key := sprintf("drain|%v|%v", T, seq[:executed])
+			r.State(key)
+			r.Nontrivial(key)
+			if why != "" {
+				var evs []string
+				for _, e := range seq[:min(executed+1, len(seq))] {
+					evs = append(evs, c16DrainEvents[e])
+				}
+				r.Outcome("VIOLATION")
+				sg, msg, _ := strings.Cut(why, "|")
+				r.Violation("C16:drain:"+sg, sprintf("T=%v slow-drain events=%v: %s", T, evs, msg), map[string]any{"T": T.String(), "events": evs, "trace": trace})
+			} else {
+				r.Outcome(sprintf("slow-drain-never-cut(%d events)", executed))
+			}
+			// skip all sequences sharing the judged prefix plus the event that left the premise
+			if executed < ddepth {
+				blk := 1
+				for i := 0; i < ddepth-executed-1; i++ {
+					blk *= nd
+				}
+				idx = (idx/blk + 1) * blk
+			} else {
+				idx++
 			}
 		}
 	}
